@@ -93,6 +93,22 @@ def main():
             unit_records.append(r)
             continue
         unit_records.append(r)
+        if r["verdict"] == "violated" and u.get("confirm_with"):
+            # a code-shaped contract failed: the code's formula changed.  Whether the PROPERTY is violated is
+            # decided by the direct-specification unit (refutation side): a counterexample there is the violation;
+            # a proof there means the change was a harmless rewrite; anything else is undecided.
+            cu = driver.load_unit(u["confirm_with"])
+            cr = driver.run_unit(cu, tier, a.keep, tuple(defs), "confirm")
+            cr["defines"] = list(defs); cr["confirms"] = u["name"]
+            unit_records.append(cr)
+            if cr["verdict"] == "violated":
+                violations.append((cu, cr, defs))
+            elif cr["verdict"] == "proved":
+                notes.append("unit %s (code-shaped) no longer matches the code, but the direct specification unit %s proves: property holds; update the shape contract" % (u["name"], cu["name"]))
+                r["verdict"] = "shape-drift"
+            else:
+                undecided.append((u, r, "code-shaped contract failed (%s) and the direct specification unit %s is undecided: %s" % (", ".join(f["id"] for f in r["failed"][:3]), cu["name"], cr["reason"])))
+            continue
         if r["verdict"] == "undecided":
             undecided.append((u, r, r["reason"]))
         elif r["verdict"] == "violated":
